@@ -334,7 +334,7 @@ def generate(rng, tier):
     cases.append(make_case(det, sub1, [""], "argv"))
     cases.append(make_case(det, sub1[2][1][1], ["", "sub"], "argv"))
     cases.append(make_case(det, FIXED[4][2][1][1], ["root"], "empty"))
-    n = 500 if tier == "quick" else 12000
+    n = 1000 if tier == "quick" else 12000
     while len(cases) < n:
         r = rng.random()
         if r < 0.10:
